@@ -458,23 +458,12 @@ def check_accepted(b, nodes, pairs):
             p = nodes[nd.parent]
             if (p.s, p.e, p.line) != (0, 0, 0) and not (p.s <= nd.s and nd.e <= p.e):
                 problems.append(("nesting", "%s not inside its parent %s(%d,%d)" % (where, p.kind, p.s, p.e)))
-        # member keys: the bridge stores the ENTRY's span (known finding) -> overlaps the occurrence and the entry type
-        if nd.kind.startswith("MK.") and nd.parent >= 0 and (nodes[nd.parent].s, nodes[nd.parent].e) == (nd.s, nd.e) \
-                and ("member_key", nd.s, nd.e) not in pairs:
-            kf.add("kf-c15-memberkey-span-is-entry-span")
-            transparent.add(i)
-        elif pair_kinds(nd.kind) and not any((k, nd.s, nd.e) in pairs for k in pair_kinds(nd.kind)):
+        if pair_kinds(nd.kind) and not any((k, nd.s, nd.e) in pairs for k in pair_kinds(nd.kind)):
             problems.append(("pair-span", "%s is not the span of any pest pair of rule %s" % (where, "/".join(sorted(pair_kinds(nd.kind))))))
         if nd.extra is not None:
             src = b[nd.s:nd.e]
             if src != nd.extra:
-                sock = b"$$" if nd.extra.startswith(b"$$") and src.startswith(b"$$") else (b"$" if nd.extra.startswith(b"$") and src.startswith(b"$") else b"")
-                name = nd.extra[len(sock):]
-                mid = src[len(sock):len(src) - len(name)] if src.endswith(name) and len(src) > len(nd.extra) else None
-                if sock and mid and SKIP_RE.match(mid):
-                    kf.add("kf-c15-socket-ident-span-blank")
-                else:
-                    problems.append(("ident-text", "%s covers %r but the identifier is %r" % (where, src.decode("utf-8", "replace"), nd.extra.decode("utf-8", "replace"))))
+                problems.append(("ident-text", "%s covers %r but the identifier is %r" % (where, src.decode("utf-8", "replace"), nd.extra.decode("utf-8", "replace"))))
         if nd.kind in ("RuleT", "RuleG"):
             first = nodes[nd.kids[0]] if nd.kids else None
             if first is None or first.kind != "Ident.rulename" or first.s != nd.s:
@@ -524,25 +513,14 @@ def hexnums(s):
     return [int(x, 16) for x in s.split(" ")] if s else []
 
 
-def check_rejected(b, e, model_out, repaired=False):
+def check_rejected(b, e, model_out):
     """clauses checked directly + comparison with the model; returns (problems, kf, cls)"""
     problems, kf = [], set()
     n = len(b)
-    flags, fixed = "00", None
-    m = model_out
-    if "|" in m:
-        m, flags, fx = m.split("|")
-        fixed = tuple(hexnums(fx))
-    mi, ml, mc, ma, mb = hexnums(m)
+    mi, ml, mc, ma, mb = hexnums(model_out)
     got = (e["index"], e["line"], e["col"], e["a"], e["b"])
     if got != (mi, ml, mc, ma, mb):
-        # deviation switch of the two error-range findings: once their witnesses no longer fail, the implementation is
-        # compared with the repaired model (ErrRange.convert_pest_error_fixed) instead of the faithful one
-        if repaired and fixed is not None and got == fixed:
-            pass
-        else:
-            problems.append(("model", "reported (index,line,column,range) = %s but the model of %s gives %s%s" % (
-                got, e["origin"], (mi, ml, mc, ma, mb), (" (repaired model: %s)" % (fixed,)) if fixed and fixed != (mi, ml, mc, ma, mb) else "")))
+        problems.append(("model", "reported (index,line,column,range) = %s but the model of %s gives %s" % (got, e["origin"], (mi, ml, mc, ma, mb))))
     if not (0 <= e["a"] <= e["b"]):
         problems.append(("range-inverted", "range (%d,%d) is inverted" % (e["a"], e["b"])))
     if not (0 <= e["index"] <= n and e["b"] <= n):
@@ -550,19 +528,10 @@ def check_rejected(b, e, model_out, repaired=False):
     else:
         if (e["line"], e["col"]) != line_col_of(b, e["index"]):
             problems.append(("err-linecol", "line %d column %d are not those of index %d (%s)" % (e["line"], e["col"], e["index"], line_col_of(b, e["index"]))))
-        bad_start = not (is_boundary(b, e["index"]) and is_boundary(b, e["a"]))
-        bad_end = not is_boundary(b, e["b"])
-        if bad_end:
-            # classifier: the byte at the range end is a continuation byte and the scanned token starts at a non-ASCII lead byte
-            if e["origin"] == "pest" and flags[0] == "1" and e["b"] == e["a"] + 1 and b[e["a"]] >= 0xC0:
-                kf.add("kf-c15-range-end-in-char")
-            else:
-                problems.append(("err-char-boundary", "range end %d is inside a multi-byte character" % e["b"]))
-        if bad_start:
-            if e["origin"] == "pest" and flags[1] == "1" and e["index"] == e["a"] and e["b"] == e["a"] + 1 and e["a"] < e["pest"][0]:
-                kf.add("kf-c15-range-start-in-char")
-            else:
-                problems.append(("err-char-boundary", "index %d / range start %d is inside a multi-byte character" % (e["index"], e["a"])))
+        if not is_boundary(b, e["b"]):
+            problems.append(("err-char-boundary", "range end %d is inside a multi-byte character" % e["b"]))
+        if not (is_boundary(b, e["index"]) and is_boundary(b, e["a"])):
+            problems.append(("err-char-boundary", "index %d / range start %d is inside a multi-byte character" % (e["index"], e["a"])))
     if e["origin"] == "pest":
         pp, pl, pc = e["pest"]
         if not (0 <= pp <= n) or not is_boundary(b, pp):
@@ -586,6 +555,18 @@ def check_rejected(b, e, model_out, repaired=False):
 # the check
 # ---------------------------------------------------------------------------
 
+# witnesses of the findings repaired in /repo (findings.d/C15.json "fixed"); they run first on every run
+FIXED_WITNESSES = [
+    ("2fbd55d range end inside a multi-byte character", "a = é"),
+    ("2fbd55d range start / index inside a multi-byte character", "a = ; é\n"),
+    ("2fbd55d", "a = xé"), ("2fbd55d", "a = [ ; 𝄞\n"), ("2fbd55d", "; 日本\n="),
+    ("837f856 identifier span covers the blank after a socket prefix", "a = $ x"),
+    ("837f856", "a = [* $$ grp ]"), ("837f856", "a = $ ; c\n x"),
+    ("781e531 member key span is the whole group entry", "a = {? b: int}"),
+    ("781e531", "a = {1*2 \"k\" ^ => tstr, * tstr => any, 1: int}"),
+]
+
+
 def load_findings():
     kfs = common.known_findings(PROP)
     if not kfs:   # fragment not assembled yet
@@ -595,7 +576,7 @@ def load_findings():
     return {k["id"]: k for k in kfs}
 
 
-def evaluate(drv, orc, texts, repaired=False):
+def evaluate(drv, orc, texts):
     """run driver + oracle on texts; returns list of dicts with problems / kf / class"""
     hexes = [t.encode("utf-8").hex() for t in texts]
     impl = common.run_tool(drv, ["P\t" + h for h in hexes])
@@ -642,15 +623,15 @@ def evaluate(drv, orc, texts, repaired=False):
             if (mo == "wf") != direct_ok:
                 rec["problems"].append(("events-wfb", "Coq events_wfb says %s but the direct nesting/order check says %s" % (mo, direct_ok)))
         elif what == "E":
-            pr, kf, cls = check_rejected(b, rec["err"], mo, repaired)
+            pr, kf, cls = check_rejected(b, rec["err"], mo)
             rec["problems"] += pr; rec["kf"] |= kf; rec["cls"] = cls
         elif what == "C":
-            pr, kf, cls = check_rejected(b, rec["checked"], mo, repaired)
+            pr, kf, cls = check_rejected(b, rec["checked"], mo)
             rec["problems"] += [(c, "from_slice/checked: " + d) for c, d in pr]; rec["kf"] |= kf; rec["checked_cls"] = cls
     return parsed, impl
 
 
-def sweep_check(drv, orc, texts, repaired):
+def sweep_check(drv, orc, texts):
     """convert_pest_error at every character-boundary offset of each text: implementation vs model.
     returns (n_offsets, problems[(text, desc)], class histogram)"""
     hexes = [t.encode("utf-8").hex() for t in texts]
@@ -661,26 +642,25 @@ def sweep_check(drv, orc, texts, repaired):
         b = t.encode("utf-8")
         try:
             got = [tuple(int(x) for x in e.split(" ")) for e in a.split(",")]
-            mf, mx = m.split("|")
-            faithful = [tuple(int(x, 16) for x in e.split(" ")) for e in mf.split(",")]
-            fixed = [tuple(int(x, 16) for x in e.split(" ")) for e in mx.split(",")]
+            faithful = [tuple(int(x, 16) for x in e.split(" ")) for e in m.split(",")]
         except ValueError:
             problems.append((t, "sweep output unreadable: impl %r model %r" % (a[:80], m[:80])))
             continue
         if len(got) != len(faithful):
             problems.append((t, "sweep lengths differ: impl %d offsets, model %d" % (len(got), len(faithful))))
             continue
-        for g, f, x in zip(got, faithful, fixed):
+        for g, f in zip(got, faithful):
             n += 1
             p, idx, line, col, lo, hi = g
             cls = "forward" if lo == p and hi > p else "backward" if lo < p else "zero-width"
             if not (is_boundary(b, lo) and is_boundary(b, hi)):
                 cls += ":inside-char"
             hist[cls] = hist.get(cls, 0) + 1
-            if g != f and not (repaired and g == x):
+            if g != f:
                 problems.append((t, "convert_pest_error at offset %d: implementation (index,line,column,a,b) = %s, model %s" % (p, g[1:], f[1:])))
-            elif not (lo <= hi <= len(b) and lo <= p and idx == lo and (line, col) == line_col_of(b, idx)):
-                problems.append((t, "convert_pest_error at offset %d: %s violates a <= b <= len / a <= offset / index = a / line,column of index" % (p, g[1:])))
+            elif not (lo <= hi <= len(b) and lo <= p and idx == lo and (line, col) == line_col_of(b, idx)
+                      and is_boundary(b, lo) and is_boundary(b, hi)):
+                problems.append((t, "convert_pest_error at offset %d: %s violates a <= b <= len / a <= offset / index = a / line,column of index / character boundaries" % (p, g[1:])))
     return n, problems, hist
 
 
@@ -688,12 +668,12 @@ def vm_expr(text, line):
     f = line.split("\t")
     if f[0] == "X":
         bs = common.coq_list(list(bytes.fromhex(f[1])))
-        return "(err_sweep_render %s ++ [124] ++ err_sweep_fixed_render %s)%%list" % (bs, bs)
+        return "err_sweep_render %s" % bs
     if f[0] == "W":
         return "events_wf_render %s%%N %s" % (f[1], common.coq_list([int(x) for x in f[2].split(",")] if f[2] != "-" else []))
     bs = common.coq_list(list(bytes.fromhex(f[1])))
     if f[0] == "E":
-        return "(err_render %s %s%%N ++ [124] ++ err_render_fixed %s %s%%N)%%list" % (bs, f[2], bs, f[2])
+        return "err_render %s %s%%N" % (bs, f[2])
     if f[0] == "S":
         return "span_position_render %s %s%%N %s%%N" % (bs, f[2], f[3])
     if f[0] == "A":
@@ -714,23 +694,19 @@ def run(tier, seed):
         n_docs, n_trunc = n_docs * 3, n_trunc * 3
     findings = load_findings()
 
-    # 1. replay the witnesses of the open findings
-    still_open = set()
+    # 1. corpus first: the witnesses of the repaired findings (any recurrence is a violation), then open findings
+    recs, impl_c = evaluate(drv, orc, [w for _, w in FIXED_WITNESSES])
+    for (tag, w), rec, out in zip(FIXED_WITNESSES, recs, impl_c):
+        for clause, desc in rec["problems"]:
+            res.violation("recurrence of a repaired finding (%s) on its witness %r: clause '%s': %s" % (tag, w, clause, desc),
+                          {"text_hex": w.encode().hex(), "text": w, "clause": clause, "detail": desc, "impl": out[:2000], "fixed_finding": tag})
     for kid, kf in findings.items():
         w = kf["witness"]["text"]
-        recs, _ = evaluate(drv, orc, [w], repaired=True)
+        recs, _ = evaluate(drv, orc, [w])
         if kid in recs[0]["kf"]:
-            res.known(kf); still_open.add(kid)
-        elif recs[0]["problems"]:
-            for clause, desc in recs[0]["problems"]:
-                res.violation("witness %r of %s no longer shows the finding but fails clause '%s': %s" % (w, kid, clause, desc),
-                              {"text_hex": w.encode().hex(), "text": w, "clause": clause, "detail": desc, "impl": recs[0]["impl"][:2000]})
+            res.known(kf)
         else:
             res.notes.append("finding %s apparently repaired: witness %r -> %s" % (kid, w, recs[0]["impl"][:200]))
-    # the implementation is held to the repaired error-range model only when BOTH range findings are gone
-    repaired = not ({"kf-c15-range-end-in-char", "kf-c15-range-start-in-char"} & still_open)
-    if repaired:
-        res.notes.append("error-range findings repaired: implementation compared with ErrRange.convert_pest_error_fixed where it differs from the faithful model")
 
     # 2. generated documents
     cases = gen_cases(rng, n_docs, n_trunc)
@@ -741,7 +717,7 @@ def run(tier, seed):
     BATCH = 4000      # bounded memory: node records are dropped after each batch
     for b0 in range(0, len(cases), BATCH):
         batch = cases[b0:b0 + BATCH]
-        recs, impl = evaluate(drv, orc, [c[1] for c in batch], repaired)
+        recs, impl = evaluate(drv, orc, [c[1] for c in batch])
         if b0 == 0:
             samples = [{"class": c[0], "text": c[1][:160], "impl": o[:300]} for c, o in list(zip(batch, impl))[len(SPECIAL):len(SPECIAL) + 6]]
         for (cls, t, feats), rec in zip(batch, recs):
@@ -789,7 +765,7 @@ def run(tier, seed):
     # 2b. convert_pest_error at every offset (exhaustive over the character boundaries of each chosen text)
     short = [c[1] for c in cases if len(c[1].encode()) <= 120]
     sweep_texts = [c[1] for c in cases[:len(SPECIAL)]] + rng.sample(short, min(len(short), 600 if tier == "quick" else 8000))
-    sweep_n, sweep_problems, sweep_hist = sweep_check(drv, orc, sweep_texts, repaired)
+    sweep_n, sweep_problems, sweep_hist = sweep_check(drv, orc, sweep_texts)
     for t, desc in sweep_problems[:50]:
         clause_hist["sweep"] = clause_hist.get("sweep", 0) + 1
         res.violation("C15 error-position model: %s on %r" % (desc, t[:120]),
@@ -818,7 +794,7 @@ def run(tier, seed):
     if not proved and not res.violations:
         res.violation(res.proof_broken, {"kind": "proof-obligation", "detail": res.proof_broken}, no_input=True)
     res.coverage.update({
-        "evaluations": len(cases) + len(findings) + sweep_n,
+        "evaluations": len(cases) + len(FIXED_WITNESSES) + len(findings) + sweep_n,
         "distinct_nontrivial": len(distinct),
         "rule": "documents from a structure-directed CDDL generator (every construct of cddl.pest; LF / CRLF / mixed line ends, tabs, blank lines, "
                 "multi-byte UTF-8 in text, byte strings and comments, missing final newline), their single- and double-edit mutants (delete / insert / "
@@ -850,13 +826,7 @@ def replay(path):
     common.coq_build([EXTRACT])
     orc = common.build_oracle("pos", ["pos_model"])
     t = bytes.fromhex(r["text_hex"]).decode("utf-8")
-    still_open = set()
-    for kid, kf in load_findings().items():
-        wrecs, _ = evaluate(drv, orc, [kf["witness"]["text"]], repaired=True)
-        if kid in wrecs[0]["kf"]:
-            still_open.add(kid)
-    repaired = not ({"kf-c15-range-end-in-char", "kf-c15-range-start-in-char"} & still_open)
-    recs, impl = evaluate(drv, orc, [t], repaired)
+    recs, impl = evaluate(drv, orc, [t])
     rec = recs[0]
     print("text  :", repr(t))
     print("impl  :", impl[0][:3000])
